@@ -47,6 +47,7 @@ type Ident struct {
 	CanRead   bool     `json:"cr"`
 	CanWrite  bool     `json:"cw"`
 	ExpiresAt []byte   `json:"exp"`
+	Hdr       int      `json:"hdr,omitempty"`      // which extra request headers / dial options the connection used (not part of its identity)
 	Exp       int64    `json:"exp_unix,omitempty"` // the token's exp when its text form cannot be parsed back (years above 9999)
 	UserAgent []byte   `json:"ua"`
 	Addr      []byte   `json:"addr"`
